@@ -1230,7 +1230,7 @@ func (c *Ctx) GATEW(rule string) []report.Obligation {
 				case *ssa.Alloc:
 					good, why = true, "on an Options value created in this function"
 				case *ssa.Call:
-					if cal := x.Call.StaticCallee(); cal != nil && (cal.Name() == "clone" || cal.Name() == "toOptions") && c.P.InModule(cal) {
+					if cal := x.Call.StaticCallee(); cal != nil && c.P.InModule(cal) && (c.P.RefName(cal) == "clone" || c.P.RefName(cal) == "toOptions") {
 						good, why = true, "on the result of "+c.P.FuncID(cal)
 					}
 				case *ssa.Parameter:
